@@ -29,7 +29,11 @@ JudgeStack(e, pre) ==
   IN
   IF Crashed(e) THEN V("crash", subj, "C16", e.post.msg)
   ELSE LET r == StackOp(e.act.elem, e.act.m, args, pre.s) IN
-       Expect(e.post.s = r.post /\ (IF huge /\ e.act.m = "replace" THEN e.ret.t = "err" ELSE RetEq(e.ret, r.ret)),
+       \* replace at position usize::MAX - (p - 1) (encoded -p) of n elements reports the offset usize::MAX - (p + n - 2), saturating:
+       \* encoded -(p + n - 1), at least -1
+       Expect(e.post.s = r.post /\ (IF huge /\ e.act.m = "replace"
+                                    THEN e.ret.t = "err" /\ e.ret.v = -Max2((-e.act.args[1]) + Len(pre.s) - 1, 1)
+                                    ELSE RetEq(e.ret, r.ret)),
               subj, "C16", "contents or return value differ from the plain sequence")
 
 \* The abstract level decides C17: the live items as the public API shows them (iteration oldest first, indexed
@@ -136,15 +140,17 @@ JudgeItem(e) ==
   LET subj == "item." \o e.act.m
       a == e.act.args
       m == e.act.m
-      own == IF m = "find" THEN "C19" ELSE "C08"       \* (find is the helper of LIST.BVAL / IVAL / FVAL: "the n-th value of the requested type")
+      own == IF m = "find" THEN "C19" ELSE IF m = "contains" /\ Len(e.act.args) > 2 /\ e.act.args[3] # 0 THEN "EXT" ELSE "C08"    \* (no instruction starts a search elsewhere than at 0)       \* (find is the helper of LIST.BVAL / IVAL / FVAL: "the n-th value of the requested type")
   IN IF Crashed(e) THEN V("crash", subj, own, e.post.msg)
   ELSE Expect(
        CASE m = "size" -> RetEq(e.ret, RVal(Size(a[1])))
          [] m = "shallow_size" -> RetEq(e.ret, RVal(IF a[1].k = "list" THEN Len(a[1].v) + 1 ELSE 1))
          [] m = "traverse" -> RetEq(e.ret, IF a[2] < Size(a[1]) THEN RSome(Extract(a[1], a[2])) ELSE RNone)
          [] m = "insert" -> RetEq(e.ret, IF a[3] < Size(a[1]) THEN RSome(InsertPt(a[1], a[2], a[3])) ELSE [t |-> "none", v |-> a[1]])
-         [] m = "contains" -> StructFuzzy(a[1]) \/ StructFuzzy(a[2]) \/ RetEq(e.ret, RVal(Position(a[1], a[2]))) \/
-                              (e.ret.t = "val" /\ \E k \in 1..Len(AllPositions(a[1], a[2])) : AllPositions(a[1], a[2])[k] = e.ret.v)
+         \* (with a start index k the answer is k + a position: the sub-tree sits at index k of a bigger tree)
+         [] m = "contains" -> LET k == IF Len(a) > 2 THEN a[3] ELSE 0 IN
+                              StructFuzzy(a[1]) \/ StructFuzzy(a[2]) \/ (Position(a[1], a[2]) = -1 /\ RetEq(e.ret, RVal(-1))) \/
+                              (e.ret.t = "val" /\ \E j \in 1..Len(AllPositions(a[1], a[2])) : AllPositions(a[1], a[2])[j] + k = e.ret.v)
          [] m = "container" -> StructFuzzy(a[1]) \/ StructFuzzy(a[2]) \/
                                (LET c == ContainerOf(a[1], a[2]) IN RetEq(e.ret, IF c.found THEN RSome(c.item) ELSE RNone))
          [] m = "substitute" -> StructFuzzy(a[1]) \/ StructFuzzy(a[2]) \/ RetEq(e.ret, RVal(Subst(a[1], a[2], a[3])))
